@@ -27,6 +27,10 @@ pub enum WEv {
     Accept(usize),
     Pending,
     Fail,
+    /// this one call fails with `ErrorKind::Interrupted`; the stream itself stays usable
+    Interrupted,
+    /// no room until the reading side has consumed this many octets (back-pressure in both directions)
+    WaitRead(usize),
 }
 
 #[derive(Default)]
@@ -36,6 +40,7 @@ pub struct Shared {
     pub written: Vec<u8>,
     pub consumed: usize,
     pub read_waker: Option<Waker>,
+    pub write_waker: Option<Waker>,
     pub trace: Vec<String>,
     pub trace_on: bool,
     pub writes_after_fail: usize,
@@ -101,6 +106,8 @@ pub fn parse_wevs(s: &str) -> Option<Vec<WEv>> {
             Some(match t {
                 "p" => WEv::Pending,
                 "f" => WEv::Fail,
+                "i" => WEv::Interrupted,
+                _ if t.starts_with('r') => WEv::WaitRead(t[1..].parse().ok()?),
                 _ if t.starts_with('a') => WEv::Accept(t[1..].parse().ok()?),
                 _ => return None,
             })
@@ -173,6 +180,9 @@ impl AsyncRead for Scripted {
                     let k = d.len().min(buf.remaining());
                     buf.put_slice(&d[..k]);
                     s.consumed += k;
+                    if let Some(w) = s.write_waker.take() {
+                        w.wake();
+                    }
                     if let Some(u) = s.ulog.clone() {
                         sync_hooks(&u);
                         u.lock().unwrap().push(format!("rd:{}", k));
@@ -206,6 +216,16 @@ impl AsyncWrite for Scripted {
             WEv::Fail => {
                 s.failed = true;
                 Poll::Ready(Err(std::io::Error::new(std::io::ErrorKind::BrokenPipe, "scripted failure")))
+            }
+            WEv::Interrupted => Poll::Ready(Err(std::io::Error::new(std::io::ErrorKind::Interrupted, "scripted EINTR"))),
+            WEv::WaitRead(n) => {
+                if s.consumed >= n {
+                    drop(s);
+                    return self.poll_write(cx, data);
+                }
+                s.wr.push_front(WEv::WaitRead(n));
+                s.write_waker = Some(cx.waker().clone());
+                Poll::Pending
             }
             WEv::Accept(k) => {
                 let k = k.min(data.len());
